@@ -90,6 +90,25 @@ where
     // SECURITY: Bake the verifier key as constants (shared across all proofs).
     let verifier_data = builder.constant_verifier_data::<C>(inner_verifier_only);
 
+    // Verification hook (add-only, guarded): record which wires carry the child verifier key so
+    // an out-of-tree checker can ask whether any witness can make them differ from the canonical key.
+    #[cfg(quantus_network_qp_zk_circuits_verif)]
+    verif_hooks::record_vk_targets(
+        verifier_data
+            .circuit_digest
+            .elements
+            .iter()
+            .copied()
+            .chain(
+                verifier_data
+                    .constants_sigmas_cap
+                    .0
+                    .iter()
+                    .flat_map(|h| h.elements.iter().copied()),
+            )
+            .collect(),
+    );
+
     // Add virtual proof targets and verification for each
     let mut proofs = Vec::with_capacity(num_proofs);
     for _ in 0..num_proofs {
@@ -99,6 +118,25 @@ where
     }
 
     Ok(proofs)
+}
+
+/// Verification hooks (add-only, guarded).
+#[cfg(quantus_network_qp_zk_circuits_verif)]
+pub mod verif_hooks {
+    use plonky2::iop::target::Target;
+    use std::sync::Mutex;
+
+    static RECORDED: Mutex<Vec<Vec<Target>>> = Mutex::new(Vec::new());
+
+    pub fn record_vk_targets(targets: Vec<Target>) {
+        RECORDED.lock().unwrap().push(targets);
+    }
+
+    /// Drain the verifier-key target lists recorded since the last call (one per
+    /// `add_recursive_verifiers` invocation: circuit digest then every cap element).
+    pub fn take_recorded_vk_targets() -> Vec<Vec<Target>> {
+        core::mem::take(&mut *RECORDED.lock().unwrap())
+    }
 }
 
 #[cfg(test)]
